@@ -1417,3 +1417,160 @@ func ruleV10(r *Run) {
 		r.Undec("completion of a split character", fd.Pos(), "no comparison between the bytes available and the missing count found")
 	}
 }
+
+// ---------------------------------------------------------------------------------------------------
+// W14 a declared HTTP body length is an allocation size only under an upper bound
+
+func init() {
+	register("W14", "in rpc/http a Content-Length (request.ContentLength, resp.ContentLength: chosen by the peer, up to the int64 range) becomes the size of a make() only under an upper bound on the path: otherwise a header line alone allocates gigabytes, and a value near the int range panics the reading goroutine with makeslice: len out of range - on the client that is the application goroutine that made the call", 1, ruleW14)
+}
+
+func ruleW14(r *Run) {
+	p := r.P
+	pkg := p.Pkg("rpc/http")
+	if pkg == nil {
+		r.Undec("package rpc/http", 0, "not found")
+		return
+	}
+	info := pkg.TypesInfo
+	// parameters that receive a ContentLength at some call site
+	fromCL := map[types.Object]bool{}
+	for _, file := range pkg.Syntax {
+		ast.Inspect(file, func(m ast.Node) bool {
+			c, ok := m.(*ast.CallExpr)
+			if !ok {
+				return true
+			}
+			d := p.Decl(Callee(info, c))
+			if d == nil {
+				return true
+			}
+			params := paramsOf(info, d.Type)
+			for i, a := range c.Args {
+				if se, ok := ast.Unparen(stripConv(info, a)).(*ast.SelectorExpr); ok && se.Sel.Name == "ContentLength" && i < len(params) {
+					fromCL[params[i]] = true
+				}
+			}
+			return true
+		})
+	}
+	w := &w1{p: p, tainted: map[types.Object]bool{}, raw: map[types.Object]bool{}}
+	n := 0
+	for _, file := range pkg.Syntax {
+		for _, d := range file.Decls {
+			fd, ok := d.(*ast.FuncDecl)
+			if !ok || fd.Body == nil {
+				continue
+			}
+			parents := parentMap(fd.Body)
+			ast.Inspect(fd.Body, func(m ast.Node) bool {
+				c, ok := m.(*ast.CallExpr)
+				if !ok || !IsBuiltin(info, c, "make") || len(c.Args) < 2 {
+					return true
+				}
+				for _, a := range c.Args[1:] {
+					var v types.Object
+					e := ast.Unparen(stripConv(info, a))
+					if o := identObj(info, e); o != nil && fromCL[o] {
+						v = o
+					}
+					if se, ok := e.(*ast.SelectorExpr); ok && se.Sel.Name == "ContentLength" {
+						n++
+						r.Viol(fmt.Sprintf("allocation by a declared body length in %s #%d", p.DeclName(fd), n), c.Pos(), "make() is sized by "+types.ExprString(e)+" directly")
+						continue
+					}
+					if v == nil {
+						continue
+					}
+					n++
+					_, up := w.bounds(info, factsWithSwitch(parents, c), v, fd.Body, c.Pos())
+					r.Check(up, fmt.Sprintf("allocation by a declared body length in %s #%d", p.DeclName(fd), n), c.Pos(), "under an upper bound", "`"+types.ExprString(c)+"` allocates what the Content-Length line announces with no upper bound on this path: the peer chooses that number - a few header bytes allocate gigabytes before any data arrives, and 9223372036854775807 panics with makeslice: len out of range in the goroutine that reads the body")
+				}
+				return true
+			})
+		}
+	}
+	if n == 0 {
+		r.Undec("allocations by a declared body length", 0, "none found in rpc/http")
+	}
+}
+
+// ---------------------------------------------------------------------------------------------------
+// P15 a goroutine that outlives the request does not watch the request's context
+
+func init() {
+	register("P15", "in the stateful plugins (rpc/plugins/push, rpc/plugins/reverse) a function started with `go` from a request handler, which waits on Done() of the context it is given and then withdraws state (takes a subscriber offline, removes a provider), is not given the context of the request that started it (the handler's context parameter or one derived from it): that context ends with the request - over HTTP, under the timeout plugin, or when the publisher disconnects - and the withdrawal happens at once instead of after the heartbeat interval", 2, ruleP15)
+}
+
+func ruleP15(r *Run) {
+	p := r.P
+	n := 0
+	for _, rel := range []string{"rpc/plugins/push", "rpc/plugins/reverse"} {
+		pkg := p.Pkg(rel)
+		if pkg == nil {
+			continue
+		}
+		info := pkg.TypesInfo
+		// functions that select on Done() of a context parameter
+		waitsOn := map[*types.Func]int{} // -> index of the context parameter
+		for _, file := range pkg.Syntax {
+			for _, d := range file.Decls {
+				fd, ok := d.(*ast.FuncDecl)
+				if !ok || fd.Body == nil {
+					continue
+				}
+				f, _ := info.Defs[fd.Name].(*types.Func)
+				params := paramsOf(info, fd.Type)
+				for i, pv := range params {
+					if !isNamed(pv.Type(), "context", "Context") {
+						continue
+					}
+					cp := map[types.Object]bool{pv: true}
+					ast.Inspect(fd.Body, func(m ast.Node) bool {
+						if c, ok := m.(*ast.CallExpr); ok && methodName(c) == "Done" {
+							if se, ok := ast.Unparen(c.Fun).(*ast.SelectorExpr); ok && ctxDerived(info, fd.Body, se.X, cp, 0) && f != nil {
+								waitsOn[f] = i
+							}
+						}
+						return true
+					})
+				}
+			}
+		}
+		for _, file := range pkg.Syntax {
+			for _, d := range file.Decls {
+				fd, ok := d.(*ast.FuncDecl)
+				if !ok || fd.Body == nil {
+					continue
+				}
+				reqCtx := map[types.Object]bool{}
+				for _, pv := range paramsOf(info, fd.Type) {
+					if isNamed(pv.Type(), "context", "Context") {
+						reqCtx[pv] = true
+					}
+				}
+				k := 0
+				ast.Inspect(fd.Body, func(m ast.Node) bool {
+					gs, ok := m.(*ast.GoStmt)
+					if !ok {
+						return true
+					}
+					f := Callee(info, gs.Call)
+					idx, watches := waitsOn[f]
+					if f == nil || !watches || idx >= len(gs.Call.Args) {
+						return true
+					}
+					n++
+					k++
+					arg := gs.Call.Args[idx]
+					bound := len(reqCtx) > 0 && ctxDerived(info, fd.Body, arg, reqCtx, 0)
+					r.Check(!bound, fmt.Sprintf("context of the goroutine started in %s #%d", p.DeclName(fd), k), gs.Pos(), "detached from the request", fmt.Sprintf("`%s` hands the request's context to a goroutine that waits on its Done() and then withdraws state: when the request is over (at once over HTTP or under the timeout plugin) the wait ends immediately - the subscriber is taken offline and accepted messages are lost although it polls all the time", types.ExprString(gs.Call)))
+					return true
+				})
+			}
+		}
+	}
+	if n == 0 {
+		r.Undec("goroutines started with a context", 0, "no `go f(ctx, ..)` for a function that waits on its context found in the push and reverse plugins")
+	}
+}
